@@ -48,11 +48,13 @@ K("rg.container_aligned", ["C06", "C01"], "jxl-render", RG, RGM, "container_alig
   ["Region::container_aligned"],
   _RG_SET + "for every power of two g = 2^k, k < 32, width+2(g-1) <= u32::MAX: superset; origin and size multiples of g; origin = floor_g(left), "
   "far edge = ceil_g(right) (least g-aligned superset), negative origins included")
-K("rg.apply_orientation", ["C06", "C15", "C01"], "jxl-render", RG, RGM, "apply_orientation_contract", "complete",
-  ["Region::apply_orientation", "ImageMetadata::apply_orientation", "ImageHeader::width_with_orientation",
-   "ImageHeader::height_with_orientation"],
-  "requires stored size 1..=i32::MAX, orientation 1..8, R a non-empty rectangle inside the displayed image; ensures for every stored "
-  "point p inside the image: p in result <=> spec_orientation(o,W,H,p) in R, result inside the stored image, size kept (o<=4) or swapped (o>=5)")
+for _o in range(1, 9):  # one obligation per orientation value (1 + u(3)); a symbolic orientation needs 290 s, a concrete one 11 s
+    K("rg.apply_orientation_o%d" % _o, ["C06", "C15", "C01"], "jxl-render", RG, RGM, "apply_orientation_o%d" % _o, "complete",
+      ["Region::apply_orientation", "ImageMetadata::apply_orientation", "ImageHeader::width_with_orientation",
+       "ImageHeader::height_with_orientation"],
+      "orientation = %d; requires stored size 1..=i32::MAX (all of it), R any non-empty rectangle inside the displayed image; ensures for every "
+      "stored point p inside the image: p in result <=> spec_orientation(o,W,H,p) in R; result inside the stored image; size kept (o<=4) or "
+      "swapped (o>=5)" % _o)
 K("rg.apply_orientation_empty", ["C06", "C15"], "jxl-render", RG, RGM, "apply_orientation_empty_contract", "complete",
   ["Region::apply_orientation"],
   "requires an EMPTY rectangle (width or height 0) positioned inside the displayed image; ensures the result is empty "
